@@ -20,7 +20,11 @@ RULE = ("random vectors/axes of any magnitude (1e-3..1e5, and log-uniform over 1
         "values unchanged (C, Fortran, transposed / axis-swapped views, strided and reversed slices of NaN-padded buffers, "
         "0-d views); every column is compared with the one-column model at 1e-13; points from "
         "the surface to 50000 km for geodetic_lat/subpoint, incl. points 1e-9 .. 10 km from the polar axis and exactly "
-        "on it, both hemispheres; distinct = (shape kind, axis kind, angle kind, values)")
+        "on it, both hemispheres; the helpers also on (3,n) / (3,m,n) ARRAYS of such points in one call, exact polar-axis "
+        "columns (x == y == 0, either sign of zero, either pole) mixed with off-axis columns, every column judged; a few "
+        "rotations of more than 262144 columns per run (300001, 524289, ... columns as (3,n) and (3,m,n), every axis / angle "
+        "kind), EVERY column against a vectorised Rodrigues reference at 1e-11 of its length; "
+        "distinct = (shape kind, axis kind, angle kind, values)")
 ASSUMPTIONS = ["the 1 m bound of the geodetic helpers depends on np.allclose's stopping rule (rtol 1e-5): measured",
                "shape handling (reshape/einsum broadcasting) is covered by the correspondence over all shape/kind combinations, "
                "the theorems are about one column"]
@@ -183,6 +187,188 @@ def rpoint(r):
     return np.array([0.0, 0.0, z]), "on-axis"
 
 
+# ---------------------------------------------------------------- large inputs: hundreds of thousands of columns in one call
+LARGE_COLS = (300001, 524289, 262145, 262144 + 131, 393217, 2 * 262144)
+LARGE_AKINDS = ("shared(3,)", "shared(3,1)", "per-column", "per-column")
+LARGE_GKINDS = ("pyfloat", "npscalar", "0-d", "per-column", "per-column")
+
+
+def gen_large_spec(r):
+    """A recipe {seed, shape (of the columns), akind, gkind} for one rotation of more than 262144 columns."""
+    target = r.choice(LARGE_COLS + (r.randrange(262145, 540000),))
+    if r.random() < 0.5:
+        shape = [target]
+    else:
+        m = r.choice([2, 3, 5, 7, r.randrange(2, 40)])
+        shape = [m, -(-target // m)]
+        if r.random() < 0.3:
+            shape = shape[::-1]
+    akind = r.choice(LARGE_AKINDS)
+    gkind = r.choice(LARGE_GKINDS)
+    if len(shape) == 2 and akind != "per-column" and gkind == "per-column":
+        gkind = r.choice(["pyfloat", "npscalar", "0-d"])       # the rejected combination is out of scope
+    if len(shape) == 2 and akind == "shared(3,1)":
+        akind = "shared(3,)"
+    return {"seed": r.randrange(2 ** 31), "shape": shape, "akind": akind, "gkind": gkind}
+
+
+def build_large(spec):
+    """(vector, axis, angle, per-column (3,N) vectors, (3,N)|(3,1) axes, (N,) angles) of a recipe; deterministic in it."""
+    g = np.random.default_rng(int(spec["seed"]))
+    shape = tuple(int(x) for x in spec["shape"])
+    ncol = int(np.prod(shape))
+
+    def mags(n):
+        return np.where(g.random(n) < 0.5, 10 ** g.uniform(-3, 5, n), 10 ** g.uniform(-15, 8, n))
+    v2 = g.standard_normal((3, ncol)) * mags(ncol)
+    if spec["akind"] == "per-column":
+        ax2 = g.standard_normal((3, ncol)) * mags(ncol)
+        axis = ax2.reshape((3,) + shape).copy()
+    else:
+        ax2 = (g.standard_normal(3) * mags(1)).reshape(3, 1)
+        axis = ax2[:, 0].copy() if spec["akind"] == "shared(3,)" else ax2.copy()
+    if spec["gkind"] == "per-column":
+        angs = g.uniform(-4 * math.pi, 4 * math.pi, ncol)
+        sp = g.random(ncol) < 0.1
+        angs[sp] = np.array(SPECIAL_ANGLES)[g.integers(0, len(SPECIAL_ANGLES), int(sp.sum()))]
+        angle = angs.reshape(shape).copy()
+    else:
+        a = float(g.uniform(-4 * math.pi, 4 * math.pi))
+        angs = np.full(ncol, a)
+        angle = {"pyfloat": a, "npscalar": np.float64(a), "0-d": np.array(a)}[spec["gkind"]]
+    return v2.reshape((3,) + shape).copy(), axis, angle, v2, ax2, angs
+
+
+def rodrigues_cols(v2, ax2, angs):
+    """Rodrigues' rotation of every column of v2 (3,N) about ax2 (3,N) or (3,1), normalised, by MINUS angs (N,)."""
+    k = np.broadcast_to(ax2 / np.sqrt((ax2 * ax2).sum(axis=0)), v2.shape)
+    c, s = np.cos(angs), np.sin(angs)
+    return v2 * c - np.cross(k, v2, axis=0) * s + k * (k * v2).sum(axis=0) * (1 - c)
+
+
+def large_probe(spec):
+    """[(kind, column | None, observed, required)] for one large rotation: shape kept, EVERY column equal to Rodrigues'
+    rotation by minus the angle at 1e-11 of the column's length (the tolerance of the small cases)."""
+    from pyorbital import geoloc
+    vec, axis, angle, v2, ax2, angs = build_large(spec)
+    try:
+        out = geoloc.qrotate(vec, axis, angle)
+    except Exception as e:  # noqa
+        return [("raises", None, type(e).__name__ + ": " + str(e)[:100], "rotated vectors")], v2.shape[1]
+    if np.shape(out) != vec.shape:
+        return [("shape", None, list(np.shape(out)), list(vec.shape))], v2.shape[1]
+    o2 = np.asarray(out, dtype=float).reshape(3, -1)
+    ref = rodrigues_cols(v2, ax2, angs)
+    sc = np.sqrt((v2 * v2).sum(axis=0))
+    with np.errstate(all="ignore"):
+        ok = np.all(np.abs(o2 - ref) <= 1e-11 * sc, axis=0)
+    w = np.nonzero(~ok)[0]
+    bad = []
+    for j in sorted(set(int(x) for x in list(w[:2]) + list(w[-1:]))):
+        bad.append(("rodrigues", j, o2[:, j].tolist(), "%s (Rodrigues by minus the angle %r about %s of the column %s; %d of %d "
+                    "columns differ, first %d, last %d)" % (ref[:, j].tolist(), float(angs[j]), ax2[:, j if ax2.shape[1] > 1 else 0].tolist(),
+                                                           v2[:, j].tolist(), len(w), v2.shape[1], int(w[0]), int(w[-1]))))
+    return bad, v2.shape[1]
+
+
+# ---------------------------------------------------------------- geodetic helpers on arrays mixing polar-axis and other points
+def gen_point_array(r):
+    """(3,n) or (3,m,n) array of points from the surface to 50000 km: exact polar-axis points (x == y == 0, both signs of
+    zero, both poles) mixed with off-axis points (anywhere, or within 10 km of the axis); also none / only polar points."""
+    from pyorbital import geoloc
+    shape = (r.randrange(1, 9),) if r.random() < 0.6 else (r.randrange(1, 4), r.randrange(1, 5))
+    ncol = int(np.prod(shape))
+    mix = r.choice(["mixed", "mixed", "mixed", "one-polar", "no-polar", "all-polar"])
+    cols, regions = [], []
+    for j in range(ncol):
+        polar = {"mixed": r.random() < 0.4, "one-polar": False, "no-polar": False, "all-polar": True}[mix]
+        if polar:
+            h = r.choice([0.0, r.uniform(0, 1), r.uniform(0, 2000), r.uniform(0, 50000), 50000.0])
+            p = np.array([r.choice([0.0, -0.0]), r.choice([0.0, -0.0]), r.choice([1.0, -1.0]) * (geoloc.B + h)])
+            reg = "on-axis"
+        else:
+            p, reg = rpoint(r)
+            while reg == "on-axis":
+                p, reg = rpoint(r)
+        cols.append(p)
+        regions.append(reg)
+    if mix in ("mixed", "one-polar"):
+        j = r.randrange(ncol)
+        h = r.choice([0.0, r.uniform(0, 2000), r.uniform(0, 50000)])
+        cols[j] = np.array([0.0, 0.0, r.choice([1.0, -1.0]) * (geoloc.B + h)])
+        regions[j] = "on-axis"
+    pts = np.stack(cols, axis=1).reshape((3,) + shape)
+    return pts, mix, regions
+
+
+def normal_offsets(p2, s2, a, b):
+    """Per column: (value of the ellipsoid equation at the subpoint, distance in km of the point from the geodetic normal
+    through the subpoint)."""
+    q = s2[0] ** 2 / a ** 2 + s2[1] ** 2 / a ** 2 + s2[2] ** 2 / b ** 2
+    nrm = np.stack([s2[0] / a ** 2, s2[1] / a ** 2, s2[2] / b ** 2], axis=0)
+    nrm = nrm / np.sqrt((nrm * nrm).sum(axis=0))
+    d = p2 - s2
+    off = np.sqrt(((d - nrm * (d * nrm).sum(axis=0)) ** 2).sum(axis=0))
+    return q, off
+
+
+def point_array_probe(pts, layout="C"):
+    """[(kind, column, observed, required)]: for EVERY column of the array handed to the helpers in one call, the subpoint
+    lies on the ellipsoid (1e-12) and the point lies within 1 m of the geodetic normal through its subpoint; the geodetic
+    latitude is the latitude of a normal passing within 1 m of the point (foot in the point's own meridian plane)."""
+    from pyorbital import geoloc
+    a, b = geoloc.A, geoloc.B
+    pts = apply_layout(np.array(pts, dtype=float), layout)
+    before = np.array(pts, copy=True)
+    p2 = before.reshape(3, -1)
+    ncol = p2.shape[1]
+    above = np.sqrt((p2 * p2).sum(axis=0)) >= min(a, b) * 0.999
+    bad = []
+    try:
+        with np.errstate(all="ignore"):
+            sp = geoloc.subpoint(pts)
+    except Exception as e:  # noqa
+        sp = None
+        bad.append(("geodetic_array_raises", None, "subpoint: %s: %s" % (type(e).__name__, str(e)[:100]), "a subpoint per column"))
+    if sp is not None:
+        if np.shape(sp) != before.shape:
+            bad.append(("geodetic_array_shape", None, list(np.shape(sp)), "a subpoint per column: shape %s" % list(before.shape)))
+        else:
+            s2 = np.asarray(sp, dtype=float).reshape(3, -1)
+            with np.errstate(all="ignore"):
+                q, off = normal_offsets(p2, s2, a, b)
+            for j in range(ncol):
+                if not abs(q[j] - 1.0) <= 1e-12:
+                    bad.append(("subpoint_off_ellipsoid", j, float(q[j]), "1 within 1e-12 (column %d: point %s, subpoint %s)" % (
+                        j, p2[:, j].tolist(), s2[:, j].tolist())))
+                elif above[j] and not off[j] <= 1e-3:
+                    bad.append(("normal_distance", j, float(off[j]), "<= 1 m (column %d: point %s, subpoint %s)" % (
+                        j, p2[:, j].tolist(), s2[:, j].tolist())))
+    try:
+        with np.errstate(all="ignore"):
+            gl = geoloc.geodetic_lat(pts)
+    except Exception as e:  # noqa
+        gl = None
+        bad.append(("geodetic_array_raises", None, "geodetic_lat: %s: %s" % (type(e).__name__, str(e)[:100]), "a latitude per column"))
+    if gl is not None:
+        if np.shape(gl) != before.shape[1:]:
+            bad.append(("geodetic_array_shape", None, list(np.shape(gl)), "a latitude per column: shape %s" % list(before.shape[1:])))
+        else:
+            lat = np.asarray(gl, dtype=float).reshape(-1)
+            e2 = (a * a - b * b) / (a * a)
+            with np.errstate(all="ignore"):
+                n__ = a / np.sqrt(1 - e2 * np.sin(lat) ** 2)
+                r = np.sqrt(p2[0] ** 2 + p2[1] ** 2)
+                off = np.abs((r - n__ * np.cos(lat)) * np.sin(lat) - (p2[2] - (1 - e2) * n__ * np.sin(lat)) * np.cos(lat))
+            for j in range(ncol):
+                if above[j] and not off[j] <= 1e-3:
+                    bad.append(("latitude_normal_distance", j, float(lat[j]), "the latitude of a normal of the ellipsoid passing within "
+                                "1 m of the point %s of column %d (it passes %.6g km away)" % (p2[:, j].tolist(), j, float(off[j]))))
+    if not np.array_equal(np.asarray(pts), before):
+        bad.append(("argument_modified", None, np.asarray(pts).tolist(), "points unchanged by the call"))
+    return bad
+
+
 def correspond(ctx):
     from pyorbital import geoloc
     drv = ctx.driver()
@@ -309,6 +495,23 @@ def oracle(ctx):
         if off > 1e-3 and np.linalg.norm(p) >= min(a, b) * 0.999:
             ctx.violation("normal_distance", {"point": list(p)}, off, "<= 1 m", site="geoloc.subpoint")
     ctx.note("worst distance of a point from the geodetic normal through its subpoint = %.3g km" % worst)
+    # the helpers on ARRAYS of points in one call: exact polar-axis columns mixed with off-axis columns, every column judged
+    for _ in range(ctx.size(600, 20000)):
+        pts, mix, regions = gen_point_array(ctx.rng)
+        layout = pick_layout(ctx.rng, pts)
+        ctx.count("eval_oracle_geodetic_array", 2 * len(regions))
+        ctx.bump("oracle_point_array", "%s %d-D" % (mix, pts.ndim - 1))
+        for kind, j, obs, req in point_array_probe(pts, layout)[:3]:
+            ctx.violation(kind, {"points": pts.tolist(), "points_layout": layout, "column": j}, obs, req,
+                          site="geoloc.geodetic_lat" if kind.startswith("latitude") else "geoloc.subpoint")
+    # a few rotations of more than 262144 columns per run, every column against Rodrigues
+    for _ in range(ctx.size(4, 24) + (4 if ctx.intensified else 0)):
+        spec = gen_large_spec(ctx.rng)
+        bad, ncol = large_probe(spec)
+        ctx.count("eval_oracle_large_columns", ncol)
+        ctx.bump("large_kinds", "%d-D/%s/%s" % (len(spec["shape"]), spec["akind"], spec["gkind"]))
+        for kind, j, obs, req in bad[:3]:
+            ctx.violation(kind, {"large": spec, "column": j}, obs, req, site="geoloc.qrotate")
 
 
 def match_known(entry, v):
@@ -320,6 +523,17 @@ def replay(ctx, case):
     the arguments rebuilt with the recorded kinds and memory layouts) or the recorded point of the geodetic helpers."""
     from pyorbital import geoloc
     inp = case.get("input", case)
+    if "large" in inp:
+        bad, ncol = large_probe(inp["large"])
+        print("large rotation", inp["large"], "(%d columns)" % ncol)
+        for b in bad[:4]:
+            print("  %s column %s: %s, required %s" % (b[0], b[1], b[2], str(b[3])[:400]))
+        return 1 if bad else 0
+    if "points" in inp:
+        bad = point_array_probe(np.array(inp["points"], dtype=float), inp.get("points_layout", "C"))
+        for b in bad[:6]:
+            print("  %s column %s: %s, required %s" % b)
+        return 1 if bad else 0
     if "point" in inp:
         p = np.array(inp["point"], dtype=float)
         sp = geoloc.subpoint(p)
